@@ -66,6 +66,9 @@ def special_bytes():
     return sorted(sp)
 
 
+FILE_VERSIONS = [33, 0, 5, 8, 15, 16, 29, 41]
+
+
 def check_p8_pairs(k, res):
     """"The Unicode text stored in .p8 files", exhaustively over byte pairs: all 65 536 pairs (LF / CR excepted) as comment
     lines of real .p8 files, 16 first bytes per cart; cart 16: byte strings that are themselves the UTF-8 encoding of a
@@ -94,7 +97,8 @@ def check_p8_pairs(k, res):
     res.nontriv(('p8pairs', k))
     case = {'kind': 'p8pairs', 'k': k}
     try:
-        g = carts.make_game({}, version=33, code_lines=[code])
+        # (the conversion belongs to the file format, not to a cart version: versions rotate over the carts)
+        g = carts.make_game({}, version=FILE_VERSIONS[k % len(FILE_VERSIONS)], code_lines=[code])
         buf = io.BytesIO()
         P8Formatter.to_file(g, buf, filename='t.p8')
         raw = buf.getvalue()
@@ -238,13 +242,19 @@ def run_shard(item):
         res.nontriv(('p8file',))
         case = {'kind': 'p8file'}
         try:
-            g = carts.make_game({}, version=33, code_lines=[code])
-            buf = io.BytesIO()
-            P8Formatter.to_file(g, buf, filename='t.p8')
-            raw = buf.getvalue()
-            raw.decode('utf-8')
-            g2 = P8Formatter.from_file(io.BytesIO(raw), filename='t.p8')
-            back = b''.join(g2.lua.to_lines())
+            for ver in FILE_VERSIONS[::-1]:
+                g = carts.make_game({}, version=ver, code_lines=[code])
+                buf = io.BytesIO()
+                P8Formatter.to_file(g, buf, filename='t.p8')
+                raw = buf.getvalue()
+                raw.decode('utf-8')
+                g2 = P8Formatter.from_file(io.BytesIO(raw), filename='t.p8')
+                back = b''.join(g2.lua.to_lines())
+                res.evaluations += 1
+                if back != code:
+                    res.violation('C15|p8file|mismatch|version=%d' % ver,
+                                  'a version-%d .p8 holding every byte reads back differently (the text conversion does not depend on the cart version)' % ver, case)
+                    return res
         except Exception as e:
             res.violation('C15|p8file|raise|%s' % type(e).__name__, 'writing/reading a .p8 holding every byte raised %r' % (e,), case)
             return res
